@@ -39,7 +39,7 @@ PROPS["C18"] = dict(
 )
 PROPS["C17"] = dict(
     level="proof",
-    modules=["contracts.c_pow"],
+    modules=["contracts.c_pow", "contracts.c_block"],
     not_decided=["'no other leaf or index verifies' needs collision resistance", "filters, compact blocks: not under contract yet"],
     assumptions=["block times are whole seconds (datetime modelled as POSIX timestamp)"],
     bounded=[],
@@ -121,3 +121,30 @@ PROPS["C03"] = dict(
     explanation="Bounded stand-ins (stated bounds) on both arithmetic arms against BIP340's reference algorithms on an independent EC implementation; not proved.",
     bounded=[],
 )
+
+PROPS["C19"] = dict(
+    level="proof",
+    modules=["contracts.c_var_int", "contracts.c_tx", "contracts.c_dsa_der", "contracts.c_pow", "contracts.c_script_num", "contracts.c_opcodes",
+             "contracts.c_script_pub_key", "contracts.c_number_theory", "contracts.c_bech32", "contracts.c_base58", "contracts.c_fee",
+             "contracts.c_bip32", "contracts.c_taproot", "contracts.c_ssa", "contracts.c_dsa", "contracts.c_block"],
+    not_decided=["hangs (termination) except where a `dec` clause is proved", "JSON guards, descriptor/miniscript parsers, recursion depth: not under contract"],
+    assumptions=[],
+    explanation="safety.* obligations (no IndexError/KeyError/OverflowError/... at any subscript, width conversion, division) and raises.undeclared.* obligations of every parser and predicate under contract",
+    bounded=[],
+)
+PROPS["C04"] = dict(
+    level="other",
+    modules=["contracts.c_taproot", "contracts.c_ssa", "contracts.c_dsa"],
+    not_decided=["the C arm's results for all inputs: assumed; only the bounded differential below is checked"],
+    assumptions=["btclib_secp256k1 (libsecp256k1 bindings) is trusted code outside the Python subset"],
+    explanation="Every dual-path API under contract is run on both arms (set_libsecp256k1_serving True/False) over generated inputs (valid and malformed): both must satisfy the same contract and give the same value / the same exception class (arms.differ obligation). Bounded differential, labelled bounded; no proof about the C arm.",
+    bounded=[],
+)
+
+DEFAULT_CLAIM = {
+    "proof": "Every obligation generated from the current source of the functions under contract (post-conditions, raises-iff, loop invariants, safety, lemmas) is discharged for all inputs of the declared types; bounded stand-ins cover the functions outside the executed subset and are labelled bounded, never counted as proved.",
+    "other": "Contracts on the real functions: the obligations within the executed subset are proved; the property's equations are checked by bounded stand-ins (stated bounds) against independent reference implementations - not a proof.",
+}
+NOT_APPLICABLE = {
+    "C10": "closure over updater, signer, finalizer, extractor, sighash and the interpreter (>40 functions, dynamic dispatch) plus an unforgeability clause: no contract within reach states it; its single-function facts are claimed under C02, C03, C09, C12, C18",
+}
